@@ -254,6 +254,17 @@ Theorem C06_raw_login_sound :
 Proof. exact raw_login_sound. Qed.
 Print Assumptions C06_raw_login_sound.
 
+(* C06_autoprobe_fuel_adequate: the model's size search recurses on explicit fuel (16).  The fuel is never what
+   ends it: the loop of handshake_autoprobe_fragsize ends because range, halved every round, reaches 0 -- with any
+   additional fuel the model returns the same result in the same state for every script.  (A change of the source
+   that makes range stop shrinking changes src_PROBE_SHIFT or breaks the translator's anchor, and this proof with it;
+   the real step then no longer ends: hang:handshake-step.) *)
+Theorem C06_autoprobe_fuel_adequate :
+  forall k proposed maxf s l,
+    hs_autoprobe_loop (16 + k) proposed src_PROBE_RANGE maxf s l = hs_autoprobe_loop 16 proposed src_PROBE_RANGE maxf s l.
+Proof. exact autoprobe_fuel_adequate. Qed.
+Print Assumptions C06_autoprobe_fuel_adequate.
+
 (* non-vacuity: a well-formed NULL answer with DNS id 0 carrying "ZXDLEN" is inert; placed before the
    fitting 2-byte reply "BA" of a codec switch (the D23 witness) the model switches to Base64 with or
    without it, after one query *)
